@@ -1,4 +1,5 @@
 import TLVerif.Rpccalls.ClientConnLemmas
+import TLVerif.Rpccalls.ClientConnShutdown
 import TLVerif.Generated.RpccallsFacts
 /-!
 # C38 — RPC calls receive exactly their own responses
@@ -229,6 +230,117 @@ theorem shutdown_closes_when_drained {σ σ' e} {op : Op} (hs : step σ op = .ok
                 simp [hsd, hn] at hcond
   · exact fin q _ (by simpa [step] using hs)
   · exact fin q _ (by simpa [step] using hs)
+
+/-- **graceful shutdown never strands a connection.**  In every history in which the connect loop behaves as
+`goConnect` does (`Op.cwb`: `setClientConn` only after the previous connection's `continueRunningImpl`), a
+connection that is in graceful shutdown (`rpcServerWantsFin` processed) and still open has something in flight.
+Equivalently: the critical section that takes `inFlight` to 0 — `finishCall` for a response or an RPC error,
+`cancelCallImpl` for an explicit cancel **or for a local deadline** — takes the connection out to close it
+(`shutdown_closes_when_drained` is the one-step form).  Otherwise nothing would ever close it: requests queued
+after the FIN are not sent while `isShutdown`, and the server's `CloseWait` waits for this close. -/
+theorem shutdown_drained_is_closed {ops σ evs} (h : CReach ops σ evs) (hc : σ.hasConn = true)
+    (hs : σ.isShutdown = true) : σ.inFlight ≠ 0 := creach_shutInv h hc hs
+
+/-- … and with the protocol guard as well, what keeps such a connection open is a registered call whose request
+was handed to the send loop (so it ends by response, error, cancel or its deadline — and then closes it) -/
+theorem shutdown_open_has_sent_call {ops σ evs} (h : CReach ops σ evs) (hg : GReach ops σ evs)
+    (hc : σ.hasConn = true) (hs : σ.isShutdown = true) : ∃ k c, (k, c) ∈ σ.calls ∧ c.unsent = false := by
+  have h0 := shutdown_drained_is_closed h hc hs
+  have h1 := inFlight_eq_sentCount hg
+  have hpos : 0 < sentCount σ.calls := by omega
+  simp only [sentCount, List.countP_pos_iff] at hpos
+  obtain ⟨⟨k, c⟩, hm, hu⟩ := hpos
+  exact ⟨k, c, hm, by simpa using hu⟩
+
+/-- what `goConnect` does once the connection is gone: `continueRunningImpl`, `setClientConn`, `sendLoop` -/
+def reconnectOps (good : Bool) : List Op := [.disc good, .connect, .send]
+
+/-- **queued calls are sent after the reconnect.**  From every state reached under the protocol guard, with the
+client open, one turn of the connect loop does not panic and leaves no registered call behind: each one either
+completes in that turn (sent ones with "closed after request sent", fail-fast and expired ones with their
+error) or its request is written to the new connection — in particular every call that was queued while the
+old connection was in graceful shutdown. -/
+theorem reconnect_sends_queued {ops σ evs} (h : GReach ops σ evs) (ho : σ.isOpen = true) (good : Bool) :
+    ∃ σ' e, run σ (reconnectOps good) = .ok (σ', e) ∧
+      ∀ k c, (k, c) ∈ σ.calls → (∃ r, Ev.deliver c.owner c.cb c.qid r ∈ e) ∨ Ev.pkt (.req k) ∈ e := by
+  obtain ⟨σ1, e1, h1⟩ := no_panic (op := .disc good) h rfl
+  have g1 : GReach (ops ++ [.disc good]) σ1 (evs ++ e1) := .snoc h rfl h1
+  obtain ⟨σ2, e2, h2⟩ := no_panic (op := .connect) g1 rfl
+  have g2 : GReach (ops ++ [.disc good] ++ [.connect]) σ2 (evs ++ e1 ++ e2) := .snoc g1 rfl h2
+  obtain ⟨σ3, e3, h3⟩ := no_panic (op := .send) g2 rfl
+  refine ⟨σ3, e1 ++ (e2 ++ e3), by simp [reconnectOps, run, h1, h2, h3], ?_⟩
+  -- the tear-down
+  have inv1 := reach_inv g1.reach
+  have ginv1 := greach_ginv g1
+  simp only [step] at h1
+  cases hm : massCancel σ with
+  | error p => simp [hm] at h1
+  | ok r =>
+    obtain ⟨σm, em⟩ := r
+    simp only [hm, Except.ok.injEq, Prod.mk.injEq] at h1
+    obtain ⟨hσ1, he1⟩ := h1
+    obtain ⟨kept, n, hl, hcalls, -, hwq, hopen, -, -⟩ := massCancel_spec hm
+    have hshut := massCancel_flags hm
+    obtain ⟨-, -, m3, -⟩ := massLoop_spec hl
+    have c1 : σ1.calls = kept := by rw [← hσ1]; split <;> simp [hcalls]
+    have w1 : σ1.writeQ = requeue kept := by rw [← hσ1]; split <;> simp [hwq]
+    have o1 : σ1.isOpen = true := by rw [← hσ1]; split <;> simp [hopen, ho]
+    have s1 : σ1.isShutdown = false := by rw [← hσ1]; split <;> simp [hshut]
+    -- the new connection
+    simp only [step, o1, Bool.not_true, Bool.false_eq_true, if_false, Except.ok.injEq, Prod.mk.injEq] at h2
+    obtain ⟨hσ2, -⟩ := h2
+    have c2 : σ2.calls = kept := by rw [← hσ2]; exact c1
+    have w2 : σ2.writeQ = requeue kept := by rw [← hσ2]; exact w1
+    have s2 : σ2.isShutdown = false := by rw [← hσ2]; exact s1
+    have hc2 : σ2.hasConn = true := by rw [← hσ2]
+    have ginv2 := greach_ginv g2
+    intro k c hkc
+    rcases m3 k c hkc with hk | hd
+    · -- re-queued: written by the send loop
+      right
+      have hreq : WQ.req c.owner c.qid ∈ σ2.writeQ := by rw [w2]; exact mem_requeue_of_mem hk
+      have hkey : c.qid = k := inv1.key k c (by rw [c1]; exact hk)
+      have hlook : lookup k σ2.calls = some c := by
+        rw [c2]; exact lookup_of_mem_nodup (by rw [← c1]; exact inv1.nodup) hk
+      simp only [step] at h3
+      rcases sendStep_spec h3 with ⟨-, hw3, -, -, he3⟩ | ⟨out, -, -, hmv, -, -, he3⟩
+      · -- the send loop had something to do, so this branch is impossible
+        exfalso
+        unfold sendStep at h3
+        have hne : σ2.writeQ.isEmpty = false := by
+          cases hq : σ2.writeQ with
+          | nil => rw [hq] at hreq; simp at hreq
+          | cons a t => rfl
+        simp only [hc2, Bool.not_true, Bool.false_eq_true, if_false, s2, Bool.not_false, Bool.true_and, hne,
+          Bool.or_true] at h3
+        cases hmv : moveReqs σ2.writeQ σ2.calls σ2.inFlight with
+        | error p => simp [hmv] at h3
+        | ok r =>
+          obtain ⟨a, b, d⟩ := r
+          simp only [hmv, Except.ok.injEq, Prod.mk.injEq] at h3
+          obtain ⟨hσ3, -⟩ := h3
+          rw [← hσ3] at hw3
+          simp only at hw3
+          rw [← hw3] at hreq
+          simp at hreq
+      · have hout := moveReqs_all_out ginv2.wq ginv2.wqNodup hmv c.owner c.qid hreq (by rw [hkey]; exact ⟨c, hlook⟩)
+        rw [hkey] at hout
+        have : Ev.pkt (.req k) ∈ e3 := by
+          rcases he3 with rfl | rfl
+          · simp only [List.mem_map]; exact ⟨_, hout, rfl⟩
+          · simp only [List.mem_append, List.mem_map]; exact Or.inl ⟨_, hout, rfl⟩
+        simp [this]
+    · left
+      exact ⟨massRes σ.isOpen c, List.mem_append_left _ (by rw [← he1]; exact List.mem_append_left _ hd)⟩
+
+/-- the history of the seeded defect `C38-shutdown-last-call-times-out`, on the model: the server sends its FIN
+while call 5 is in flight, call 5 ends by its own (passed) local deadline — that section closes the connection —
+call 6 is queued meanwhile (and by `reconnect_sends_queued` is written to the next connection) -/
+example : (match run Conn.init [.connect, .setup 1 5 false .past false, .send, .sfin, .setup 2 6 false .none false,
+      .cancel 5] with
+    | .ok (σ, evs) => decide (Ev.closeConn ∈ evs) && decide (Ev.cancelled 1 5 false ∈ evs) && !σ.hasConn &&
+        (lookup 6 σ.calls).isSome && decide (Ev.pkt (.req 6) ∉ evs)
+    | .error _ => false) = true := by decide
 
 /-- The guard is needed, i.e. the unguarded statement is false *for the code as it is*: a response that
 arrives for a registered call whose request was not yet handed to the send loop is accounted by `finishCall`
